@@ -256,7 +256,7 @@ def search(ctx, n, nmax):
     return found
 
 
-def run(ctx):
+def _run(ctx):
     quick = ctx.tier == 'quick'
     # second tie: regenerate the model text from the AST of copulas/optimize/__init__.py (statement by statement, fail
     # closed); Props/C18.v proves every generated definition equal to the hand-written model for every arithmetic instance
@@ -282,3 +282,16 @@ def run(ctx):
                     'PrimFloat primitives (kernel floats) as listed by Print Assumptions']
     ctx.assumptions += ['lane functions are restricted to four algebraic families so that model and numpy perform the identical IEEE operations',
                         'chandrupatla convergence within maxiter is not a theorem (empirical); b = c is handled explicitly in the R theorems']
+
+
+def run(ctx):
+    """the check proper, then the container / dtype oracle on the real functions (always, also after a broken translation)"""
+    from .. import extra_oracles
+    try:
+        _run(ctx)
+    finally:
+        try:
+            extra_oracles.root_containers(ctx)
+        except Exception as ex:       # the oracle itself must never hide the result of the check proper
+            ctx.obligation('oracle:extra:raised', False, 'correspondence', repr(ex))
+            ctx.violation('oracle:extra:raised:' + type(ex).__name__, 'container oracle raised ' + repr(ex), {'repro': '# see tools/vf/extra_oracles.py'})
